@@ -695,6 +695,10 @@ func (e *SpecEnv) evalCall(n *SCall) Value {
 			e.fail("unknown type %s", tn.Val)
 		}
 		k := payloadKind(t)
+		if k == "?" && isStructType(t) {
+			bt := s.T
+			return &StructV{Typ: t, Box: &bt, BoxKey: typeKey(t)}
+		}
 		if k == "?" {
 			e.fail("cannot unbox %s", tn.Val)
 		}
@@ -716,6 +720,48 @@ func (e *SpecEnv) evalCall(n *SCall) Value {
 			return s
 		}
 		return Sc{app("fval", SReal, s.T), types.Typ[types.Float64]}
+	case "bitand", "bitor", "bitxor", "bitandnot":
+		a, b := e.scalar(n.Args[0]), e.scalar(n.Args[1])
+		op := map[string]token.Token{"bitand": token.AND, "bitor": token.OR, "bitxor": token.XOR, "bitandnot": token.AND_NOT}[n.Fun]
+		if x, ok := smallLit(a.T); ok {
+			if y, ok2 := smallLit(b.T); ok2 {
+				r := map[string]int64{"bitand": x & y, "bitor": x | y, "bitxor": x ^ y, "bitandnot": x &^ y}[n.Fun]
+				return Sc{IntLit(r), a.Typ}
+			}
+		}
+		return Sc{u.bitop(op, a.T, b.T), a.Typ}
+	case "tuple0", "tuple1", "tuple2", "tuple3":
+		v := e.eval(n.Args[0])
+		tv, ok := v.(TupleV)
+		idx := int(n.Fun[5] - '0')
+		if !ok {
+			if idx == 0 {
+				return v
+			}
+			e.fail("%s: argument is not a tuple", n.Fun)
+		}
+		if idx >= len(tv) {
+			e.fail("%s: tuple has %d components", n.Fun, len(tv))
+		}
+		return tv[idx]
+	case "cur":
+		// current value of a (possibly reassigned) local/parameter: source-name lookup first
+		id, ok := n.Args[0].(*SIdent)
+		if !ok {
+			e.fail("cur() needs an identifier")
+		}
+		if nr, ok := e.st.Names[id.Name]; ok {
+			if nr.IsAddr {
+				if pt := valueType(nr.V); pt != nil && derefType(pt) != nil {
+					return u.loadAt(e.st.View(), nr.V, derefType(pt))
+				}
+				if lp, ok := nr.V.(LocPtr); ok {
+					return u.loadLoc(e.st.View(), lp.Fam, lp.Idx, lp.Typ)
+				}
+			}
+			return nr.V
+		}
+		return e.eval(n.Args[0])
 	case "nonnil":
 		var cs []Term
 		for _, a := range n.Args {
@@ -746,6 +792,15 @@ func (e *SpecEnv) applyDefine(d *Define, home *PkgInfo, n *SCall) Value {
 	for i, a := range n.Args {
 		args[i] = e.eval(a)
 	}
+	if d.Ghost {
+		fam, fsort, idx := e.ghostLoc(d, home, args)
+		arr := u.heapGet(e.st, fam, fsort)
+		rt, _ := e.withPkg(home).resolveType(d.Ret)
+		if idx == nil {
+			return Sc{arr, rt}
+		}
+		return Sc{Select(arr, *idx), rt}
+	}
 	if d.Body == nil {
 		// uninterpreted function over scalars
 		var sorts []string
@@ -770,6 +825,9 @@ func (e *SpecEnv) applyDefine(d *Define, home *PkgInfo, n *SCall) Value {
 			hn = home.short + "."
 		}
 		f := u.ctx.Fun("spec:"+hn+d.Name, sorts, rs)
+		if len(ts) == 0 {
+			return Sc{Term{f, rs}, rt}
+		}
 		return Sc{app(f, rs, ts...), rt}
 	}
 	ne := *e
@@ -987,6 +1045,17 @@ func (e *SpecEnv) modItems(x SExpr) []modItem {
 			e.structLeafItems(p.T, el, &out, 0)
 			return out
 		}
+		if d, home := e.pkg.findDefine(u.w, n.Fun); d != nil && d.Ghost {
+			args := make([]Value, len(n.Args))
+			for i, a := range n.Args {
+				args[i] = e.eval(a)
+			}
+			fam, fsort, idx := e.ghostLoc(d, home, args)
+			if idx == nil {
+				return []modItem{{fam: fam, sort: fsort, whole: true}}
+			}
+			return []modItem{{fam: fam, sort: fsort, idx: *idx}}
+		}
 		if n.Fun == "family" {
 			// family("F:...") whole family by name: family(x.f) => whole family of that field
 			for _, it := range e.modItems(n.Args[0]) {
@@ -998,4 +1067,32 @@ func (e *SpecEnv) modItems(x SExpr) []modItem {
 	}
 	e.fail("unsupported modifies target %s", x.String())
 	return nil
+}
+
+func (e *SpecEnv) withPkg(home *PkgInfo) *SpecEnv {
+	n := *e
+	if home != nil {
+		n.pkg = home
+	}
+	return &n
+}
+
+// ghostLoc: heap family, sort and index of a ghost location  name(arg)  (or a ghost global  name()).
+func (e *SpecEnv) ghostLoc(d *Define, home *PkgInfo, args []Value) (string, string, *Term) {
+	hn := ""
+	if home != nil {
+		hn = home.path + "."
+	}
+	_, rs := e.withPkg(home).resolveType(d.Ret)
+	fam := "GH:" + hn + d.Name
+	switch len(d.Params) {
+	case 0:
+		return fam, rs, nil
+	case 1:
+		_, ps := e.withPkg(home).resolveType(d.Params[0].Type)
+		idx := e.u.coerce(e.u.asSc(args[0], nil).T, ps)
+		return fam, ArrSort(ps, rs), &idx
+	}
+	e.fail("ghost %s: at most one parameter is supported", d.Name)
+	return "", "", nil
 }
